@@ -1,9 +1,9 @@
 """Per-property configuration of ./check: which Coq files hold the theorems, which correspondence
 streams are run, through which view they are compared and which checker is applied."""
 
-TIE_THEOREMS = ["tie_codes", "tie_codes_table", "tie_no_extra", "tie_codes_nodup", "tie_broadcast"]
 # further source ties: vo target -> theorems
-TIE_EXTRA = {"Generated/TieGuards": ["tie_guards"], "Generated/TieDecCodes": ["tie_decoder_codes"], "Generated/TieEncCodes": ["tie_encoder_codes"]}
+TIE_EXTRA = {"Generated/TieCodes": ["tie_codes", "tie_codes_table", "tie_no_extra"], "Generated/TieNoDup": ["tie_codes_nodup"], "Generated/TieBroadcast": ["tie_broadcast"],
+             "Generated/TieGuards": ["tie_guards"], "Generated/TieDecCodes": ["tie_decoder_codes"], "Generated/TieEncCodes": ["tie_encoder_codes"]}
 
 EV = dict(stream="EV", module="RP.Glue.StreamEV")
 
@@ -147,7 +147,7 @@ PROPS = {
         assumptions=["hard write errors on USART are discarded by the code; the property demands error propagation only for the serial port and CAN (DESIGN.md section 9.3)"],
     ),
     "C15": dict(
-        vfiles=["Props/C15"],
+        vfiles=["Props/C15"], tie_extra=["Generated/TieBroadcast"],
         technique="Coq proof: handle_packet characterised as a filter-map over the key-sorted registry (induction on the table), tick by case analysis on the link answer; correspondence on operation histories with logging handlers, the table being rebuilt from the ids the implementation returned",
         level_text="Theorems C15_tick (one get; packet delivered unmodified, once, in key order, to every handler if own/broadcast else to the capture-all handlers only; handlers' transmissions reach the link in order; "
                    "'nothing received' = Ok without calls; any other link error returned without calls), C15_selection, C15_handler_sends; for every table, own address (incl. 0xffff) and link answer.",
@@ -156,7 +156,7 @@ PROPS = {
         rule=RULE_PRO,
     ),
     "C16": dict(
-        vfiles=["Props/C16"],
+        vfiles=["Props/C16"], tie_extra=["Generated/TieBroadcast"],
         technique="Coq proof by case analysis on destination vs own address vs broadcast over the model of send_packet, using the handle_packet characterisation; correspondence on operation histories",
         level_text="Theorems C16_send (own address: every local handler once, not on the link, Ok; own = broadcast address: also transmitted and the link answer returned; other destination: transmitted once, "
                    "unmodified, no handler, link answer returned) and C16_transmit.",
@@ -263,10 +263,10 @@ PROPS = {
         assumptions=["BcmValue::Binary decodes any non-zero flag byte as true: inside the domain and stable under re-encoding, so not a violation (DESIGN.md section 9.1)"],
     ),
     "C11": dict(
-        vfiles=["Props/C11"], tie=True, tie_extra=["Generated/TieEncCodes"],
+        vfiles=["Props/C11"], tie_extra=["Generated/TieCodes", "Generated/TieEncCodes", "Generated/TieBroadcast"],
         technique="Coq proof that every encoder equals an independently written table-driven layout serialiser, and that an independently written strict reference decoder inverts that layout (so the decoders agree with it); event codes re-translated from the source and the tie re-proved each run; correspondence on generated events/packets",
         level_text="Theorems C11_encode_layout (encode e = layout_encode e for every well-formed event), C11_codes (the code table), C11_ref_sound and C11_decode_agrees "
-                   "(whenever the reference decoder accepts a packet, the decoder returns the same value). Generated/Tie.v re-proves on every run that the event "
+                   "(whenever the reference decoder accepts a packet, the decoder returns the same value). Generated/TieCodes.v re-proves on every run that the event "
                    "code constants in src/event/event_code.rs are that table.",
         level_note=NOTE_COMMON,
         streams=[dict(EV, view="view_C11_EV", ok="ok_C11_EV"), dict(DEC, view="view_C11_DEC", ok="ok_C11_DEC")],
@@ -274,10 +274,10 @@ PROPS = {
         assumptions=["MessageValue padding bytes are unspecified and masked to zero on the implementation side", "little-endian host for the MessageValue image"],
     ),
     "C12": dict(
-        vfiles=["Props/C12"], tie=True, tie_extra=["Generated/TieDecCodes"],
+        vfiles=["Props/C12"], tie_extra=["Generated/TieNoDup", "Generated/TieDecCodes"],
         technique="Coq proof: acceptance by any decoder forces the packet's leading code to equal the kind's code, and the code table is injective (also re-proved NoDup over the constants re-read from the source); correspondence on the 16-decoder acceptance vector",
         level_text="Theorems C12_unique (for ANY packet at most one of the 16 decoders returns a value), C12_cross (the encoding of an event is rejected with an error "
-                   "value by each of the 15 other decoders), C12_codes_injective; Generated/Tie.v re-proves pairwise distinctness of the codes as the source states them.",
+                   "value by each of the 15 other decoders), C12_codes_injective; Generated/TieNoDup.v re-proves pairwise distinctness of the codes as the source states them.",
         level_note=NOTE_COMMON,
         streams=[dict(AMB, view="view_C12", ok="ok_C12")],
         rule=RULE_AMB,
